@@ -4,7 +4,7 @@
    (rules::valid_tag, valid_entity, valid_boolean_property, valid_property) and the three flags;
    the encoding validators enc_valid / enc_vof (cppcms::encoding::valid / validate_or_filter) are
    universally quantified functions constrained only by the stated premises. *)
-From CppcmsV Require Import Base.Tac Base.Sweep C04.Defs C04.Proofs1 C04.Proofs2 C04.Proofs3 C04.Proofs4 C04.Proofs5 C04.Proofs6 C04.Proofs7 C04.Proofs8 C04.Proofs9 C04.Proofs10 C04.Proofs11 C04.Link Base.CSem gen.Gen_xss gen.Gen_xss2.
+From CppcmsV Require Import Base.Tac Base.Sweep C04.Defs C04.DefsX C04.DefsU C04.ProofsX C04.ProofsU C04.Proofs1 C04.Proofs2 C04.Proofs3 C04.Proofs4 C04.Proofs5 C04.Proofs6 C04.Proofs7 C04.Proofs8 C04.Proofs9 C04.Proofs10 C04.Proofs11 C04.Link Base.CSem gen.Gen_xss gen.Gen_xss2.
 Local Open Scope N_scope.
 
 (* ---- 1. verdicts: both entry points agree, valid input is returned unchanged, validation implies
@@ -189,6 +189,110 @@ Theorem surviving_tags_are_well_nested :
 Proof. exact nest_tagsurv_wf. Qed.
 Print Assumptions surviving_tags_are_well_nested.
 
+(* ---- 4c. the same four claims for an encoding that is not ASCII compatible (DefsX.v: convert to UTF-8, run
+        the UTF-8 pipeline, convert back; the conversions are arbitrary functions) ---- *)
+Theorem converted_validate_iff_flag :
+  forall xhtml comments numeric tag_kind entity_ok bool_ok val_ok has_enc ascii_compat enc_valid enc_vof
+         to_utf_stop to_utf_skip from_utf_stop,
+  enc_agree enc_valid enc_vof -> forall m x,
+  fst (validate_and_filter_x xhtml comments numeric tag_kind entity_ok bool_ok val_ok has_enc ascii_compat enc_vof
+         to_utf_stop to_utf_skip from_utf_stop m x)
+  = validate_x xhtml comments numeric tag_kind entity_ok bool_ok val_ok has_enc ascii_compat enc_valid to_utf_stop x.
+Proof. exact validate_flag_x. Qed.
+Print Assumptions converted_validate_iff_flag.
+
+Theorem converted_valid_unchanged :
+  forall xhtml comments numeric tag_kind entity_ok bool_ok val_ok has_enc ascii_compat enc_valid enc_vof
+         to_utf_stop to_utf_skip from_utf_stop,
+  enc_agree enc_valid enc_vof -> forall m x,
+  validate_x xhtml comments numeric tag_kind entity_ok bool_ok val_ok has_enc ascii_compat enc_valid to_utf_stop x = true ->
+  filter_x xhtml comments numeric tag_kind entity_ok bool_ok val_ok has_enc ascii_compat enc_vof
+           to_utf_stop to_utf_skip from_utf_stop m x = x.
+Proof. exact valid_unchanged_x. Qed.
+Print Assumptions converted_valid_unchanged.
+
+Theorem converted_validate_encoding :
+  forall xhtml comments numeric tag_kind entity_ok bool_ok val_ok has_enc ascii_compat enc_valid to_utf_stop x,
+  has_enc = true -> ascii_compat = false ->
+  validate_x xhtml comments numeric tag_kind entity_ok bool_ok val_ok has_enc ascii_compat enc_valid to_utf_stop x = true ->
+  exists u, to_utf_stop x = Some u /\ enc_valid u = true.
+Proof. exact validate_encoding_x. Qed.
+Print Assumptions converted_validate_encoding.
+
+(* the UTF-8 text that is converted back to the encoding has no stray markup *)
+Theorem converted_no_stray_markup :
+  forall xhtml comments numeric tag_kind entity_ok bool_ok val_ok has_enc ascii_compat enc_vof
+         to_utf_stop to_utf_skip from_utf_stop m x,
+  has_enc = true -> ascii_compat = false ->
+  let res := filter_x xhtml comments numeric tag_kind entity_ok bool_ok val_ok has_enc ascii_compat enc_vof
+                      to_utf_stop to_utf_skip from_utf_stop m x in
+  exists segs, Forall (seg_ok xhtml comments numeric tag_kind entity_ok bool_ok val_ok) segs /\
+    ((res = x /\ to_utf_stop x = Some (concat segs)) \/ from_utf_stop (concat segs) = Some res \/ res = []).
+Proof. exact filter_segs_x. Qed.
+Print Assumptions converted_no_stray_markup.
+
+Theorem converted_filter_validates :
+  forall xhtml comments numeric tag_kind entity_ok bool_ok val_ok has_enc ascii_compat enc_valid enc_vof
+         to_utf_stop to_utf_skip from_utf_stop,
+  enc_agree enc_valid enc_vof -> forall m x,
+  kind_compat xhtml tag_kind -> (m = EscapeInvalid -> esc_entities_ok entity_ok) ->
+  enc_vof_valid enc_valid enc_vof -> (has_enc = true -> enc_ascii_compatible enc_valid) ->
+  conv_roundtrip enc_valid to_utf_stop from_utf_stop ->
+  validate_x xhtml comments numeric tag_kind entity_ok bool_ok val_ok has_enc ascii_compat enc_valid to_utf_stop
+    (filter_x xhtml comments numeric tag_kind entity_ok bool_ok val_ok has_enc ascii_compat enc_vof
+              to_utf_stop to_utf_skip from_utf_stop m x) = true.
+Proof. exact filter_validates_x. Qed.
+Print Assumptions converted_filter_validates.
+
+(* ---- 4d. URI validators (class uri_parser and uri_validator_functor are modelled in DefsU.v; sre = the scheme
+        regular expression, an arbitrary function).  visible_scheme v = the scheme a browser reads:
+        ALPHA *( ALPHA / DIGIT / + - . ) followed by a colon at the start of the value. ---- *)
+Theorem uri_value_alphabet : forall strict_full k sre v,
+  uri_validate strict_full k sre v = true -> forallb uchar v = true.
+Proof. exact uri_validate_alphabet. Qed.
+Print Assumptions uri_value_alphabet.
+
+Theorem uri_scheme_whitelisted : forall strict_full sre v sc,
+  uri_validate strict_full UBoth sre v = true -> visible_scheme v = Some sc -> sre sc = true.
+Proof. exact uri_both_scheme_checked. Qed.
+Print Assumptions uri_scheme_whitelisted.
+
+Theorem absolute_uri_scheme_whitelisted : forall strict_full sre v sc,
+  uri_validate strict_full UFull sre v = true -> visible_scheme v = Some sc -> sre sc = true.
+Proof. exact uri_full_scheme_checked. Qed.
+Print Assumptions absolute_uri_scheme_whitelisted.
+
+Theorem relative_uri_has_no_scheme : forall strict_full sre v,
+  uri_validate strict_full URelative sre v = true -> visible_scheme v = None.
+Proof. exact uri_relative_no_scheme. Qed.
+Print Assumptions relative_uri_has_no_scheme.
+
+(* FINDING (absolute-uri-attribute-without-scheme).  The statement
+     forall sre v, uri_validate false UFull sre v = true -> exists sc, visible_scheme v = Some sc /\ sre sc = true
+   ("the absolute-only validator accepts only values with an allowed scheme") is refuted by the faithful model of
+   the code as it is: "http/evil" with the scheme expression (http|https).  Replayed on the implementation
+   (docs/C04.md).  With the repaired parse_full() (docs/C04_fix_1.diff, strict_full = true) the statement holds. *)
+Theorem absolute_uri_requires_scheme_refuted :
+  exists sre v, uri_validate false UFull sre v = true /\ visible_scheme v = None.
+Proof. exists ex_http_https, [104;116;116;112;47;101;118;105;108]. exact uri_full_accepts_relative. Qed.
+Print Assumptions absolute_uri_requires_scheme_refuted.
+
+Theorem absolute_uri_requires_scheme_after_fix : forall sre v,
+  uri_validate true UFull sre v = true -> exists sc, visible_scheme v = Some sc /\ sre sc = true.
+Proof. exact uri_full_strict_has_scheme. Qed.
+Print Assumptions absolute_uri_requires_scheme_after_fix.
+
+(* through the rule set: an attribute registered with a URI validator *)
+Theorem uri_attribute_scheme_whitelisted :
+  forall r vfun k strict_full sre tag pn v sc,
+  find_prop r tag pn = Some (VFun k) -> vfun k = uri_validate strict_full UBoth sre ->
+  c_val_ok r vfun tag pn v = true -> visible_scheme v = Some sc -> sre sc = true.
+Proof.
+  intros r vfun k sf sre tag pn v sc Hf Hk Hv Hs. unfold c_val_ok in Hv. rewrite Hf, Hk in Hv.
+  exact (uri_both_scheme_checked sf sre v sc Hv Hs).
+Qed.
+Print Assumptions uri_attribute_scheme_whitelisted.
+
 (* ---- 5. tie to the source: leaf functions regenerated from src/xss.cpp on every run are the
         leaf functions of the model ---- *)
 Theorem src_char_classes : forall b, b < 256 ->
@@ -256,3 +360,26 @@ Proof.
       rewrite Hlt. reflexivity.
     + intros a b Ha Hb. rewrite forallb_app, Ha, Hb. reflexivity.
 Qed.
+
+(* conv_roundtrip is satisfiable: the identity conversion *)
+Example conversion_premise_nonvacuous : conv_roundtrip ex_enc_valid (fun x => Some x) (fun x => Some x).
+Proof. split; [intros o z _ H; inversion H; reflexivity|reflexivity]. Qed.
+
+(* the premise kind_compat of filter_validates cannot be dropped: a (non API) tag_kind that treats B as
+   paired and b as any_tag, html mode, input <B><x><b></x></B>: the output <B><b></B> does not validate.
+   Rule sets built through the API satisfy kind_compat (concrete_rules_side_conditions). *)
+Definition ex_tk (n : list N) : tkind := match n with [66] => TPair | [98] => TAny | _ => TInvalid end.
+Example kind_compat_is_needed :
+  let f := filter false false false ex_tk (fun _ => true) (fun _ _ => false) (fun _ _ _ => false) false (fun _ => None) RemoveInvalid in
+  let x := [60;66;62;60;120;62;60;98;62;60;47;120;62;60;47;66;62] in
+  f x = [60;66;62;60;98;62;60;47;66;62] /\
+  validate false false false ex_tk (fun _ => true) (fun _ _ => false) (fun _ _ _ => false) false (fun _ => true) (f x) = false.
+Proof. vm_compute. split; reflexivity. Qed.
+
+Example uri_nonvacuous :
+  uri_validate false UBoth ex_http_https [104;116;116;112;58;47;47;104;47;112;63;113;61;49] = true /\   (* http://h/p?q=1 *)
+  visible_scheme [104;116;116;112;58;47;47;104;47;112;63;113;61;49] = Some [104;116;116;112] /\
+  uri_validate false UBoth ex_http_https [106;97;118;97;115;99;114;105;112;116;58;97;108;101;114;116;40;49;41] = false /\  (* javascript:alert(1) *)
+  uri_validate false URelative ex_http_https [47;112;47;113] = true /\                                            (* /p/q *)
+  uri_validate false UBoth ex_http_https [104;116;116;112;58;47;47;104;47;97;32;98] = false.                       (* http://h/a b *)
+Proof. vm_compute. repeat split. Qed.
